@@ -18,6 +18,7 @@ pub struct Ctx {
     pub n_clone: u64,
     pub n_call: u64,
     pub next_id: u64,
+    pub op_ids: Vec<u64>, // identities handed in by the running operation
     pub quiet: u8,     // 1: callbacks answer lawfully, uncounted, never fault; 2: every == answers false
     pub in_call: bool, // record events
     pub drops: Vec<u64>,
@@ -39,6 +40,7 @@ impl Ctx {
             n_clone: 0,
             n_call: 0,
             next_id: 100_000,
+            op_ids: Vec::new(),
             quiet: 0,
             in_call: false,
             drops: Vec::with_capacity(1024),
@@ -217,6 +219,7 @@ impl Key {
     pub fn new(id: u64, cls: u64) -> Key {
         with_ctx(|c| {
             c.ledger.insert(id, 1);
+            c.op_ids.push(id);
         });
         Key { magic: MAGIC_K, id, cls: Cls(cls) }
     }
@@ -294,6 +297,7 @@ impl Val {
     pub fn new(id: u64, dat: u64) -> Val {
         with_ctx(|c| {
             c.ledger.insert(id, 1);
+            c.op_ids.push(id);
         });
         Val { magic: MAGIC_V, id, dat }
     }
